@@ -10,7 +10,7 @@ RULE = (
     "spliced into random logic, all gate types, outputs that are inputs or constants, no self-loops, <=13 nodes (thorough 15); the result must be "
     "acyclic, well formed, have the same outputs and inputs = original inputs + one `c0_aux_in_<f>` per cut node f; ALL consistent valuations "
     "(stable states) of the original are enumerated bit-parallel over 2^|nodes| assignments and for each one, with the aux inputs set to the stable "
-    "values of their nodes, every output must equal its stable value. non-trivial = cyclic with >=1 stable state; distinct = canonical circuit"
+    "values of their nodes, every output must equal its stable value; rings of 550..900 gates (result deeper than the recursion limit) with stable states in closed form. non-trivial = cyclic with >=1 stable state; distinct = canonical circuit"
 )
 BUDGET = {
     "quick": {"workers": 16, "cases": 1200, "secs": 60, "min_cases": 9600},
